@@ -1,12 +1,355 @@
-//! C14 — (not built yet)
-#![allow(unused_imports, unused_variables, dead_code)]
+//! C14 — writing a parsed tape and re-parsing reproduces the same structure; writing is idempotent.
+//!
+//! op `wtape <indent_char> <indent_factor> <input hex> <tape> [rt]`
+//!   real code: `TextTape::from_slice(input)` then `write_tape` with the given indent configuration;
+//!   model: `writeTape` over `<tape>` (show.rs `text_tape` format, printed by the generator from the real
+//!   parser; the harness re-checks that it is what the parser returns for `<input hex>`).
+//!   result: output hex, or `err:parse` when the input does not parse (then `<tape>` is `err`).
+//!   The optional marker `rt` says the input is a rendering of a document of the round-trippable subset:
+//!   the L3 oracle then demands parse(write(parse x)) == parse x (tokens, offsets ignored) under EVERY
+//!   indent configuration and that write∘parse is idempotent on its own output.
 use crate::common::*;
+use crate::docgen::{self, Doc, DocCfg, Field, LayoutCfg, Node, Op};
+use crate::show;
+use jomini::{TextTape, TextWriterBuilder};
 
-pub fn gen(g: &mut Gen) {}
+fn write_with(tape: &TextTape, ic: u8, fac: u8) -> Result<Vec<u8>, String> {
+    let mut w = TextWriterBuilder::new().indent_char(ic).indent_factor(fac).from_writer(Vec::new());
+    match w.write_tape(tape) {
+        Ok(()) => Ok(w.into_inner()),
+        Err(e) => Err(match e.kind() {
+            jomini::ErrorKind::StackEmpty { .. } => "err:stackempty".to_string(),
+            _ => "err:other".to_string(),
+        }),
+    }
+}
 
 pub fn exec(w: &[&str], obs: &mut Obs) -> Option<String> {
-    None
+    match w {
+        ["wtape", c, f, h, tape_txt, rest @ ..] => {
+            let ic: u8 = c.parse().ok()?;
+            let fac: u8 = f.parse().ok()?;
+            let input = unhex(h)?;
+            let rt = rest.first() == Some(&"rt");
+            let case = w.join(" ");
+            let tape = match TextTape::from_slice(&input) {
+                Ok(t) => t,
+                Err(_) => {
+                    if *tape_txt != "err" { return Some("bad-case".to_string()); }
+                    obs.count("parse-error");
+                    return Some("err:parse".to_string());
+                }
+            };
+            let t1 = show::text_tape(tape.tokens());
+            if t1 != *tape_txt { return Some("bad-case".to_string()); }
+            let out = match write_with(&tape, ic, fac) {
+                Ok(o) => o,
+                Err(e) => { obs.count("write-error"); return Some(e); }
+            };
+            oracle(&input, &t1, &out, ic, fac, rt, &case, obs);
+            Some(hex(&out))
+        }
+        // implementation-only probe (not diffed): tape, written text, tape of the written text
+        ["x-wtape", c, f, h] => {
+            let ic: u8 = c.parse().ok()?;
+            let fac: u8 = f.parse().ok()?;
+            let input = unhex(h)?;
+            let tape = match TextTape::from_slice(&input) { Ok(t) => t, Err(_) => return Some("err:parse".to_string()) };
+            let t1 = show::text_tape(tape.tokens());
+            let out = match write_with(&tape, ic, fac) { Ok(o) => o, Err(e) => return Some(format!("{} {}", t1, e)) };
+            let t2 = TextTape::from_slice(&out).map(|t| show::text_tape(t.tokens())).unwrap_or("err:parse".to_string());
+            Some(format!("{} {} {} {}", t1, hex(&out), t2, if t1 == t2 { "same" } else { "DIFFERENT" }))
+        }
+        _ => None,
+    }
 }
+
+/// Known finding W1 (writer.rs:750/765): a parameter block with a *scalar* value leaves the machine
+/// waiting for `=`; harmless only when a real `}` follows (possibly after the `]` of enclosing
+/// object-valued blocks, which are written raw).  Shape test on the tape.
+fn shape_param_scalar(toks: &[&str]) -> bool {
+    let is_param = |t: &str| t.starts_with("P:") || t.starts_with("N:");
+    let is_scalar = |t: &str| t.starts_with("U:") || t.starts_with("Q:");
+    for i in 0..toks.len() {
+        if is_param(toks[i]) && i + 1 < toks.len() && is_scalar(toks[i + 1]) {
+            let mut j = i + 2;
+            loop {
+                match toks.get(j) {
+                    Some(t) if t.starts_with('E') => {
+                        let start: usize = t[1..].parse().unwrap_or(0);
+                        // the end of an object-valued parameter block is written as a raw `]`: keep looking
+                        if start >= 1 && is_param(toks[start - 1]) { j += 1; continue; }
+                        break; // a real container end resets the state
+                    }
+                    _ => return true,
+                }
+            }
+        }
+    }
+    false
+}
+
+/// Known finding W2: `mixed_mode` stays set from a `MixedContainer` token until the next `write_end`,
+/// so an operator inside an *object* nested in the list is written on the mixed branch.
+fn shape_mixed_nested_operator(toks: &[&str]) -> bool {
+    for i in 0..toks.len() {
+        if toks[i] != "M" { continue; }
+        let mut open: Vec<&str> = vec![];
+        for t in &toks[i + 1..] {
+            if t.starts_with('E') { break; }
+            if (t.starts_with('A') || t.starts_with('O')) && t[1..].trim_start_matches('m').parse::<usize>().is_ok() { open.push(t); continue; }
+            if t.starts_with("Op:") {
+                if let Some(c) = open.last() { if c.starts_with('O') && !c.starts_with("Om") { return true; } }
+            }
+        }
+    }
+    false
+}
+
+/// The runner keeps at most 200 violations per run: record only the first few witnesses of each
+/// *known* finding so that they can never crowd out a new one (all of them are still counted).
+static KNOWN_SEEN: [std::sync::atomic::AtomicUsize; 2] = [std::sync::atomic::AtomicUsize::new(0), std::sync::atomic::AtomicUsize::new(0)];
+const KNOWN_KEEP: usize = 40;
+
+fn report(obs: &mut Obs, kind: &str, case: &str, detail: &str) {
+    let slot = match kind { "roundtrip-param-scalar" => Some(0), "roundtrip-mixed-nested-operator" => Some(1), _ => None };
+    if let Some(i) = slot {
+        if KNOWN_SEEN[i].fetch_add(1, std::sync::atomic::Ordering::Relaxed) >= KNOWN_KEEP {
+            obs.count(&format!("known-finding-not-listed-again:{}", kind));
+            return;
+        }
+    }
+    obs.violation(kind, case, detail);
+}
+
+fn oracle(_input: &[u8], t1: &str, out: &[u8], ic: u8, fac: u8, rt: bool, case: &str, obs: &mut Obs) {
+    let toks: Vec<&str> = t1.split(',').collect();
+    let has_mixed_object = toks.iter().any(|t| t.starts_with("Om"));
+    let w1 = shape_param_scalar(&toks);
+    let w2 = shape_mixed_nested_operator(&toks);
+    if rt && w1 { obs.count("shape:param-scalar"); }
+    if rt && w2 { obs.count("shape:mixed-nested-operator"); }
+    // every divergence of a tape with a known-finding shape is reported under that finding's kind;
+    // everything else keeps the general kinds and is a real violation
+    let kind = |general: &'static str| -> &'static str {
+        if w1 { "roundtrip-param-scalar" } else if w2 { "roundtrip-mixed-nested-operator" } else { general }
+    };
+    match TextTape::from_slice(out) {
+        Err(e) => {
+            if rt { report(obs, kind("roundtrip-output-does-not-parse"), case, &format!("{} {:?}", hex(out), e)); return; }
+            else { obs.count("garbage:output-does-not-parse"); }
+        }
+        Ok(tape2) => {
+            let t2 = show::text_tape(tape2.tokens());
+            if t2 != t1 {
+                if rt { report(obs, kind("roundtrip"), case, &format!("written {} parses to {}", hex(out), t2)); return; }
+                obs.count(if has_mixed_object { "not-preserved:mixed-object" } else if w1 { "not-preserved:param-scalar(known)" } else if w2 { "not-preserved:mixed-nested-operator(known)" } else { "garbage:not-preserved" });
+            } else {
+                obs.count(if rt { "roundtrip-ok" } else { "other-roundtrip-ok" });
+            }
+            // write∘parse is idempotent on its own output
+            match write_with(&tape2, ic, fac) {
+                Ok(out2) => {
+                    if out2 != out {
+                        if rt { report(obs, kind("idempotent"), case, &format!("first {} second {}", hex(out), hex(&out2))); return; }
+                        else { obs.count("garbage:not-idempotent"); }
+                    } else { obs.count("idempotent-ok"); }
+                }
+                Err(e) => { if rt { report(obs, kind("idempotent"), case, &format!("second write fails {}", e)); return; } }
+            }
+        }
+    }
+    if rt {
+        // every indent configuration (the case line names one; the structure must survive all of them)
+        let tape = TextTape::from_slice(_input).unwrap();
+        for c in [b' ', b'\t'] {
+            for f in 0..=9u8 {
+                if (c, f) == (ic, fac) { continue; }
+                match write_with(&tape, c, f).ok().and_then(|o| TextTape::from_slice(&o).ok().map(|t| show::text_tape(t.tokens()))) {
+                    Some(t) if t == t1 => {}
+                    other => { report(obs, kind("roundtrip-indent-config"), case, &format!("indent {} x{}: {:?}", c, f, other)); return; }
+                }
+            }
+        }
+    }
+}
+
+// ---------------------------------------------------------------------------------------
+// generators
+
+/// arrays that turn into key-value lists: `k={ v1 v2 a=b c<d e={ x=y } }`.  `nested_ops` puts
+/// non-`=` operators into objects nested in the list (known finding `roundtrip-mixed-nested-operator`).
+fn mixed_array_text(rng: &mut Rng, nested_ops: bool) -> Vec<u8> {
+    fn sc(rng: &mut Rng) -> &'static str { *rng.pick(&["a", "b1", "yes", "-5", "1.500", "\"q s\"", "@v", "x.y", "1444.11.11"]) }
+    fn un(rng: &mut Rng) -> &'static str { *rng.pick(&["a", "b1", "k", "-5", "1.500", "x.y", "1444.11.11"]) }
+    let mut s = String::new();
+    let n = 1 + rng.size(3);
+    for _ in 0..n {
+        s.push_str(un(rng));
+        s.push_str("={ ");
+        for _ in 0..1 + rng.size(3) {
+            if rng.chance(1, 6) { s.push_str("{ "); for _ in 0..rng.size(3) { s.push_str(sc(rng)); s.push(' '); } s.push_str("} "); } else { s.push_str(sc(rng)); s.push(' '); }
+        }
+        for _ in 0..1 + rng.size(4) {
+            s.push_str(un(rng));
+            s.push_str(*rng.pick(&["=", "=", " = ", "<", ">=", " != ", "=="]));
+            match rng.below(6) {
+                0 => { s.push_str("{ "); for _ in 0..rng.size(3) { s.push_str(sc(rng)); s.push(' '); } s.push_str("} "); }
+                1 => {
+                    s.push_str("{ ");
+                    for _ in 0..1 + rng.size(2) { s.push_str(un(rng)); s.push_str(if nested_ops { *rng.pick(&["=", ">", "<=", "!="]) } else { "=" }); s.push_str(sc(rng)); s.push(' '); }
+                    s.push_str("} ");
+                }
+                _ => { s.push_str(sc(rng)); s.push(' '); }
+            }
+        }
+        s.push_str("} ");
+        if rng.chance(1, 2) { s.push_str(un(rng)); s.push('='); s.push_str(sc(rng)); s.push(' '); }
+    }
+    s.into_bytes()
+}
+
+fn emit_input(g: &mut Gen, ic: u8, fac: u8, input: &[u8], rt: bool) {
+    let tape = match TextTape::from_slice(input) {
+        Ok(t) => show::text_tape(t.tokens()),
+        Err(_) => "err".to_string(),
+    };
+    if tape == "err" { g.count("gen:input-does-not-parse"); }
+    g.emit(format!("wtape {} {} {} {}{}", ic, fac, hex(input), tape, if rt && tape != "err" { " rt" } else { "" }));
+}
+
+fn indent_cfg(rng: &mut Rng) -> (u8, u8) {
+    (if rng.chance(1, 2) { b' ' } else { b'\t' }, rng.below(10) as u8)
+}
+
+/// text with parameter blocks (`[[name] …]`, `[[!name] …]`) in the positions the game files use them.
+/// `scalar_params_anywhere = false` keeps a scalar-valued block (`[[p] v ]`) directly before a `}`:
+/// followed by anything else it is the known finding `roundtrip-param-scalar`
+/// (the value's epilogue leaves the machine waiting for `=`).
+fn param_text(rng: &mut Rng, scalar_params_anywhere: bool) -> Vec<u8> {
+    fn key(rng: &mut Rng) -> &'static str { *rng.pick(&["a", "b1", "yes", "-5", "1.500", "x.y", "caf\u{e9}", "\"q k\""]) }
+    fn scalar(rng: &mut Rng) -> &'static str { *rng.pick(&["a", "b1", "yes", "-5", "1.500", "\"q s\"", "\"\"", "@v", "x.y", "caf\u{e9}"]) }
+    fn unq(rng: &mut Rng) -> &'static str { *rng.pick(&["a", "b1", "yes", "-5", "1.500", "x.y", "caf\u{e9}"]) }
+    fn fields(rng: &mut Rng, depth: usize, anywhere: bool, in_param: bool, out: &mut String) {
+        let n = rng.size(4);
+        if in_param {
+            // the parser reads the first token of a block with the unquoted-scalar splitter: a plain field first
+            out.push_str(unq(rng)); out.push_str(*rng.pick(&["=", " = ", "<", " >= "])); out.push_str(scalar(rng)); out.push(' ');
+        }
+        for i in 0..n {
+            match rng.below(if depth < 3 { 9 } else { 5 }) {
+                0..=3 => { out.push_str(key(rng)); out.push_str(*rng.pick(&["=", " = ", "<", " >= ", "=="])); out.push_str(scalar(rng)); out.push(' '); }
+                4 => { out.push_str("k={ "); let m = rng.size(3); for _ in 0..m { out.push_str(scalar(rng)); out.push(' '); } out.push_str("} "); }
+                5 | 6 => {
+                    out.push_str(if rng.chance(1, 2) { "[[" } else { "[[!" });
+                    out.push_str(*rng.pick(&["p", "PARAM", "x_1"]));
+                    out.push_str(*rng.pick(&["]", "] ", "]\n"]));
+                    if rng.chance(1, 3) && (anywhere || (i + 1 == n && !in_param)) { out.push_str(unq(rng)); out.push(' '); }
+                    else { fields(rng, depth + 1, anywhere, true, out); }
+                    out.push_str("] ");
+                }
+                _ => { out.push_str("o={ "); fields(rng, depth + 1, anywhere, false, out); out.push_str("} "); }
+            }
+        }
+    }
+    let mut s = String::new();
+    let n = 1 + rng.size(3);
+    for _ in 0..n {
+        s.push_str(*rng.pick(&["blk", "effect", "t"]));
+        s.push_str("={ ");
+        fields(rng, 0, scalar_params_anywhere, false, &mut s);
+        s.push_str("} ");
+    }
+    // latin-1 bytes rather than utf-8 for the é
+    s.chars().map(|c| if c == '\u{e9}' { 0xe9u8 } else { c as u8 }).collect()
+}
+
+pub fn gen_c14(g: &mut Gen) {
+    // 0. the writer's own tape tests and small fixed shapes
+    for t in [
+        &b"hello=world"[..], b"vals={1 a=b d=f}", b"a={ }", b"a={ {} }", b"a=rgb { 1 2 3 }", b"a=LIST { {} }", b"a = { b = { c = { d } } }",
+        b"a={1 2}=b", b"a > b c <= d e == f g != h i ?= j", b"\"q\"=\"x \\\" y\"", b"a={ [[p] b=c ] }", b"a={ [[!p] v ] x=y }", b"a={ [[p] b={c d} ] [[q] z ] }",
+        b"a={b=c d e}", b"a={ b != c }", b"a={ b ?= c d=e }", b"on_actions = { x delay = { days = { 5 10 }} y delay = { days = { 15 20 }} z }",
+        b"a={ {b=c} {d=e} }", b"a=hsv { 0.5 0.5 0.5 } b=hsv360 { 1 2 3 }", b"", b"a={", b"a=", b"}", b"a={b}}",
+    ] {
+        for (c, f) in [(b' ', 2u8), (b'\t', 1), (b' ', 0), (b' ', 9)] { emit_input(g, c, f, t, false); }
+    }
+    g.count("fixed");
+
+    // 1. round-trippable documents x layouts x indent configurations
+    let n = g.budget(2_500, 40_000);
+    for i in 0..n {
+        let cfg = DocCfg { mixed: false, max_depth: 1 + g.rng.below(5), ..DocCfg::text_full() };
+        let mut doc = docgen::gen_doc(&mut g.rng, &cfg);
+        // nest past the 16 byte indent cache
+        if i % 4 == 0 {
+            let k = g.rng.range(2, 22);
+            for _ in 0..k {
+                doc = Doc { fields: vec![Field { key: docgen::Leaf::Unq(b"n".to_vec()), op: Op::Eq, val: if doc.fields.is_empty() { Node::Arr(vec![]) } else { Node::Obj(doc.fields) }, ghosts: 0, implicit_eq: g.rng.chance(1, 4) }] };
+            }
+        }
+        let lex = docgen::lexemes(&doc);
+        let layouts = 1 + g.rng.below(2);
+        for l in 0..layouts {
+            let text = if l == 0 && g.rng.chance(1, 3) { docgen::render_canonical(&lex) } else { docgen::render_layout(&mut g.rng, &LayoutCfg::full(), &lex) };
+            let k = 1 + g.rng.below(2);
+            for _ in 0..k {
+                let (ic, fac) = indent_cfg(&mut g.rng);
+                emit_input(g, ic, fac, &text, true);
+            }
+        }
+    }
+    g.count("documents");
+
+    // 2. parameter blocks
+    let n = g.budget(1_500, 20_000);
+    for i in 0..n {
+        // one case in four lets scalar-valued blocks stand anywhere (known finding `roundtrip-param-scalar`)
+        let anywhere = i % 4 == 3;
+        let text = param_text(&mut g.rng, anywhere);
+        let (ic, fac) = indent_cfg(&mut g.rng);
+        emit_input(g, ic, fac, &text, true);
+    }
+    g.count("parameters");
+
+    // 2b. arrays that turn into key-value lists
+    let n = g.budget(1_000, 15_000);
+    for i in 0..n {
+        // one case in four puts non-`=` operators into the nested objects (known finding `roundtrip-mixed-nested-operator`)
+        let nested_ops = i % 4 == 3;
+        let text = mixed_array_text(&mut g.rng, nested_ops);
+        let (ic, fac) = indent_cfg(&mut g.rng);
+        emit_input(g, ic, fac, &text, true);
+    }
+    g.count("mixed-arrays");
+
+    // 3. everything in C01's model including objects that continue as a bare list (not preserved: documented)
+    let n = g.budget(1_000, 20_000);
+    for _ in 0..n {
+        let cfg = DocCfg { max_depth: 1 + g.rng.below(4), ..DocCfg::text_full() };
+        let doc = docgen::gen_doc(&mut g.rng, &cfg);
+        let text = docgen::render_layout(&mut g.rng, &LayoutCfg::full(), &docgen::lexemes(&doc));
+        let (ic, fac) = indent_cfg(&mut g.rng);
+        emit_input(g, ic, fac, &text, false);
+    }
+    g.count("full-model");
+
+    // 4. malformed stream: mutations and random text over the significant alphabet
+    let n = g.budget(3_000, 60_000);
+    for i in 0..n {
+        let text = if i % 3 == 0 { docgen::random_text(&mut g.rng, 24) } else {
+            let cfg = DocCfg { max_depth: 3, ..DocCfg::text_full() };
+            let doc = docgen::gen_doc(&mut g.rng, &cfg);
+            let base = docgen::render_layout(&mut g.rng, &LayoutCfg::full(), &docgen::lexemes(&doc));
+            docgen::mutate(&mut g.rng, &base, docgen::TEXT_ALPHABET)
+        };
+        let (ic, fac) = indent_cfg(&mut g.rng);
+        emit_input(g, ic, fac, &text, false);
+    }
+    g.count("malformed");
+}
+
+pub fn gen(g: &mut Gen) { gen_c14(g) }
 
 pub fn tables() -> String {
     String::new()
